@@ -10,7 +10,7 @@ class Spec:
         self.roots = []; self.opaque = []; self.retsites = []
         self.contracts = {}; self.loops = {}; self.loop_headers = {}
         self.pre = []; self.code = []; self.jobs = []; self.name = None; self.files = []
-        self.drop = []
+        self.drop = []; self.replays = {}
 
 def parse_spec(path, spec=None, top=True, seen=None):
     spec = spec or Spec(); seen = seen if seen is not None else set()
@@ -26,6 +26,7 @@ def parse_spec(path, spec=None, top=True, seen=None):
         elif cur[0] == 'loop': spec.loops[(cur[1], int(cur[2]))] = txt
         elif cur[0] == 'pre': spec.pre.append((ap, txt))
         elif cur[0] == 'code' and top: spec.code.append((ap, txt))
+        elif cur[0] == 'replay': spec.replays[cur[1]] = txt
         cur = None; buf = []
     for line in open(path):
         line = line.rstrip('\n')
@@ -44,6 +45,7 @@ def parse_spec(path, spec=None, top=True, seen=None):
         elif kw == 'loop': cur = ('loop',) + tuple(rest.split()[:2])
         elif kw == 'pre': cur = ('pre',)
         elif kw == 'code': cur = ('code',)
+        elif kw == 'replay': cur = ('replay', rest.split()[0])
         elif kw == 'end': cur = None
         elif kw == 'enforce':
             if top:
